@@ -29,12 +29,14 @@ def plan(tier, seed):
     return [{"id": f"{seed}-{i}", "i": i} for i in range(N[tier])]
 
 
-def make_input(r, kind, solid_only=False, with_cpal=False, want_gap=False):
+def make_input(r, kind, solid_only=False, with_cpal=False, want_gap=False, minimal=False, flavour=None):
     """-> (font bytes, description)"""
     from vf.drive import inproc
 
     if kind in ("colr1", "colr0", "picosvg"):
         fmt = {"colr1": "glyf_colr_1", "colr0": "glyf_colr_0", "picosvg": "picosvg"}[kind]
+        if kind != "picosvg" and flavour:
+            fmt = fmt.replace("glyf", flavour)  # CFF / CFF2 outlines: glue_together reorders glyphs of an OTF
         pal = svggen.FontPalette(r)
         srcs = []
         if r.random() < 0.5:
@@ -90,6 +92,42 @@ def make_input(r, kind, solid_only=False, with_cpal=False, want_gap=False):
 
     npal = r.choice([1, 2, 3])
     zero_adv = r.random() < 0.35
+    if minimal:
+        # a colour font whose colour glyphs paint their own outlines and that has no other glyph besides .notdef
+        # (and, half the time, a space): nothing to spare between .notdef and the first colour glyph
+        from fontTools.fontBuilder import FontBuilder
+
+        space = r.random() < 0.5
+        order = [".notdef"] + (["space"] if space else []) + ["A", "B"]
+        fb = FontBuilder(1000, isTTF=True)
+        fb.setupGlyphOrder(order)
+        cm = {0x41: "A", 0x42: "B"}
+        if space:
+            cm[0x20] = "space"
+        fb.setupCharacterMap(cm)
+        pts = {}
+        for nm in ("A", "B"):
+            cx, cy, n, sz = r.randint(300, 700), r.randint(100, 500), r.randint(3, 6), r.randint(100, 250)
+            pts[nm] = [(int(cx + sz * c13.math.cos(2 * c13.math.pi * k / n + 0.3)), int(cy + sz * c13.math.sin(2 * c13.math.pi * k / n + 0.3))) for k in range(n)]
+        gl = {".notdef": c13.poly([(0, 0), (0, 10), (10, 10), (10, 0)]), "A": c13.poly(pts["A"]), "B": c13.poly(pts["B"])}
+        if space:
+            from fontTools.pens.ttGlyphPen import TTGlyphPen
+
+            gl["space"] = TTGlyphPen(None).glyph()
+        fb.setupGlyf(gl)
+        fb.setupHorizontalMetrics({n: (1000, 0) for n in order})
+        asc, desc = r.choice([(800, -200), (950, -250)])
+        fb.setupHorizontalHeader(ascent=asc, descent=desc)
+        fb.setupOS2(sTypoAscender=asc, sTypoDescender=desc)
+        fb.setupNameTable({"familyName": "T", "styleName": "R"})
+        fb.setupPost()
+        font = fb.font
+        g = lambda nm: {"Format": PF.PaintGlyph, "Glyph": nm, "Paint": c13.fillp(r, pts[nm], PF)}
+        font["COLR"] = buildCOLR({"A": g("A"), "B": {"Format": PF.PaintColrLayers, "Layers": [g("B"), g("A")]} if r.random() < 0.5 else g("B")}, version=1)
+        font["CPAL"] = buildCPAL([[(1, 0, 0, 1), (0, 0, 1, 1), (0, 0.6, 0, 1), (1, 1, 0, 0.5), (0, 0, 0, 1)]])
+        bio = io.BytesIO()
+        font.save(bio)
+        return bio.getvalue(), {"kind": "thirdparty-colr1-minimal", "space_glyph": space, "non_colour_glyphs": len(order) - 2, "sequences": [[0x41], [0x42]]}
     font, shapes, (asc, desc) = c13.mkfont(r, npal, zero_advance=zero_adv)
     stats = {}
     gA = {"Format": PF.PaintColrLayers, "Layers": [c13.graph(r, shapes, 2, False, PF, stats) for _ in range(r.randint(1, 2))]}
@@ -141,7 +179,13 @@ def run_case(case):
     res = {"counters": {}, "maxes": {}, "violations": [], "tags": [kind] + flags}
     c = res["counters"]
     try:
-        data, desc = make_input(r, kind, solid_only=(kind == "picosvg" and colr_version == 0), with_cpal=with_cpal, want_gap=case["i"] % 8 in (0, 3))
+        data, desc = make_input(r, kind, solid_only=(kind == "picosvg" and colr_version == 0), with_cpal=with_cpal, want_gap=case["i"] % 8 in (0, 3), minimal=kind == "thirdparty" and case["i"] % 16 in (2, 10), flavour={4: "cff", 7: "cff2", 12: "cff2", 15: "cff"}.get(case["i"] % 16))
+        if desc.get("config", {}).get("color_format", "").startswith("cff"):
+            res["tags"].append("cff-outlines")
+            c["inputs_with_cff_outlines"] = 1
+        if desc["kind"].endswith("minimal"):
+            res["tags"].append("no-spare-glyph")
+            c["inputs_without_spare_glyphs"] = 1
         if with_cpal:
             res["tags"].append("svg-with-cpal")
     except Exception as e:
@@ -159,7 +203,11 @@ def run_case(case):
             if bitmaps and ("does not fit in format b" in out or "'b' format requires" in out or "too big for CBDT" in out or "out of bounds" in out):
                 c["refused_bitmap_metrics"] = 1  # CBDT's 8-bit metrics cannot hold this font's line metrics at 128 px: explicit refusal
                 return res
-            res["violations"].append(dict(ctx, what=f"maximum_color failed (exit {rcode})", output=out[:2500]))
+            v = dict(ctx, what=f"maximum_color failed (exit {rcode})", output=out[:2500])
+            if "pop from empty list" in out and "_copy_svg" in out and desc.get("non_colour_glyphs", 9) < 2:
+                # F26: the donor built from the generated SVGs always has .notdef and .space in front of its colour glyphs
+                v["mechanism"] = "F26-copy-svg-needs-two-spare-glyphs"
+            res["violations"].append(v)
             return res
         outp = b / "Font.ttf"
         before = TTFont(io.BytesIO(data), lazy=False)
